@@ -157,6 +157,18 @@ def explicit_cases(tier):
                 rows.append({"type": "end group"})
                 rows.append({"type": "select_one c", "name": "after", "label": "L"})
                 yield {"k": "rows", "rows": rows, "what": "table-list"}
+    # several selects on one list, with and without or_other (each or_other select has its own companion)
+    sels = ["select_one c", "select_one c or_other", "select_multiple c or_other", "rank c", "select_multiple c"]
+    for k in (2, 3):
+        for combo in itertools.product(sels, repeat=k):
+            if sum(1 for t in combo if "or_other" in t) < 2 and not (tier == "thorough" and any("or_other" in t for t in combo)):
+                continue
+            for wrap in (None, "group", "repeat"):
+                rows = [{"type": t, "name": f"s{i}", "label": "L", **({"appearance": "compact"} if t == "select_multiple c or_other" else {})}
+                        for i, t in enumerate(combo)]
+                if wrap:
+                    rows = [{"type": f"begin {wrap}", "name": "w", "label": "W"}, *rows, {"type": f"end {wrap}"}]
+                yield {"k": "rows", "rows": rows, "what": "or-other-shared-list"}
     vals = [None, "yes", "no", "true()", "TRUE"]
     for k in (2, 3) if tier == "quick" else (2, 3, 4):
         for combo in itertools.product(vals, repeat=k):
